@@ -324,3 +324,31 @@ class NilChoices:
     vals: List[Union[None, int, List[str]]] = field(default_factory=list, metadata={
         "type": "Elements", "choices": ({"name": "toks", "type": List[str], "tokens": True, "nillable": True, "default_factory": list},
                                         {"name": "n", "type": Optional[int], "nillable": True})})
+
+
+@dataclass
+class TwoItems:
+    """two INNER classes called Item (same qualified name, different fields)"""
+
+    @dataclass
+    class Order:
+        @dataclass
+        class Item:
+            sku: Optional[str] = field(default=None, metadata={"type": "Element"})
+            note: Optional[str] = field(default=None, metadata={"type": "Element"})
+
+        item: Optional["TwoItems.Order.Item"] = field(default=None, metadata={"type": "Element"})
+
+    @dataclass
+    class Invoice:
+        @dataclass
+        class Item:
+            sku: Optional[str] = field(default=None, metadata={"type": "Element"})
+
+        item: Optional["TwoItems.Invoice.Item"] = field(default=None, metadata={"type": "Element"})
+
+    order: Optional["TwoItems.Order"] = field(default=None, metadata={"type": "Element"})
+    invoice: Optional["TwoItems.Invoice"] = field(default=None, metadata={"type": "Element"})
+
+
+TWO_ITEMS_DOCS = [{"order": {"item": {"sku": "a", "note": "n"}}, "invoice": {"item": {"sku": "b"}}}]
